@@ -27,11 +27,25 @@ Print Assumptions C15_field_history_independent_partial.
 (* two objects, two histories, the same final question: the same answer, namely the pure one *)
 Theorem C15_fresh_eq_reused_partial : forall (w : world) (pre1 pre2 : list (call w)) (st1 st2 : state w) p d dflt,
   (forall q od, In (Field w q od) pre1 -> od <> None) -> (forall q od, In (Field w q od) pre2 -> od <> None) ->
-  sframe w st1 = sframe w st2 ->
+  frame_after w (sframe w st1) pre1 = frame_after w (sframe w st2) pre2 ->
   last (run w C15_facts st1 (pre1 ++ [Field w p (Some d)])) dflt = last (run w C15_facts st2 (pre2 ++ [Field w p (Some d)])) dflt /\
-  last (run w C15_facts st1 (pre1 ++ [Field w p (Some d)])) dflt = pure w d p (sframe w st1).
+  last (run w C15_facts st1 (pre1 ++ [Field w p (Some d)])) dflt = pure w d p (frame_after w (sframe w st1) pre1).
 Proof. intros w pre1 pre2 st1 st2 p d dflt H1 H2 Hf. exact (fresh_eq_reused_explicit w pre1 pre2 st1 st2 p d dflt H1 H2 Hf). Qed.
 Print Assumptions C15_fresh_eq_reused_partial.
+
+(* the readers show the stored answer and nothing else (no undeclared cache in the regenerated facts); asking the same
+   (date, place) again after assigning ONLY the frame yields the pure answer of the new frame *)
+Theorem C15_readers_show_last_answer : no_hidden_state C15_facts = true /\
+  (forall (w : world) (st : state w), observe w C15_facts st = answer w st) /\
+  (forall (w : world) (st : state w) p d fr',
+     observe w C15_facts (fst (field w C15_facts st p (Some d))) = Some (pure w d p (sframe w st)) /\
+     observe w C15_facts (fst (field w C15_facts (set_frame w (fst (field w C15_facts st p (Some d))) fr') p (Some d)))
+       = Some (pure w d p fr')).
+Proof.
+  split; [exact fact_no_hidden_state|]. split; [intros w st; exact (dictionary_is_answer w st)|].
+  intros w st p d fr'. exact (frame_switch w st p d fr').
+Qed.
+Print Assumptions C15_readers_show_last_answer.
 
 (* ctor_eq_method.  Whenever the constructor computes, its answer equals the method's answer on any object of that frame for
    the date value the constructor hands on: the caller's date, or what the object re-reads from self.date / self.date_dec *)
